@@ -91,7 +91,8 @@ def gen_history(rng, idx):
     if rng.random() < 0.34:
         extras = [{"at": a, "what": "push_min_commit", "k": ""} for a in sorted(rng.sample(range(0, 24), rng.randrange(2, 7)))]
     sc = {"id": f"h{idx}", "backend": "unistore", "splits": splits, "preload": preload, "batch_size": rng.choice([0, 0, 24, 3]),
-          "txn": {"mode": "2pc", "ops": []}, "txns": txns, "program": prog, "keys": KEYS, "black_from": -1, "extras": extras}
+          "txn": {"mode": "2pc", "ops": []}, "txns": txns, "program": prog, "keys": KEYS, "black_from": -1, "extras": extras,
+          "resolve_before_audit": True}
     if rng.random() < 0.17:
         sc["safe_window_ms"] = 0
     return sc
